@@ -512,6 +512,9 @@ class Engine:
                 if _os.environ.get("PYVC_TRACE"):
                     traceback.print_exc(limit=-6)
             except Unsupported as u:
+                import os as _os
+                if _os.environ.get("PYVC_TRACE_FAULT"):
+                    traceback.print_exc(limit=-8)
                 msg = "%s: %s" % (qualname, u)
                 if msg not in unsupported:
                     unsupported.append(msg)
